@@ -112,18 +112,21 @@ pub struct Plan {
 const DAY: i64 = 86_400;
 
 pub fn generate(rng: &mut Rng, tier: Tier) -> Plan {
-    let n = match rng.below(20) {
-        0..=7 => rng.usize_in(2, 3),
-        8..=17 => rng.usize_in(2, 8),
-        _ => rng.usize_in(9, 20),
+    let n = match rng.below(100) {
+        0..=39 => rng.usize_in(2, 3),
+        40..=86 => rng.usize_in(2, 8),
+        87..=96 => rng.usize_in(9, 20),
+        // long curves: size thresholds in the interval search and in tag generation
+        _ => rng.usize_in(21, 200),
     };
+    let large = n > 20;
     let interp = rng.pick(INTERPS).to_string();
     let intraday = rng.chance(0.15);
     // distinct midnight dates between 2000 and 2060 with arbitrary gaps
     let start_day = rng.i64_in(10957, 10957 + 3650);
     let mut days = vec![start_day];
     for _ in 1..n {
-        let gap = match rng.below(4) {
+        let gap = match rng.below(if large { 2 } else { 4 }) {
             0 => rng.i64_in(1, 3),
             1 => rng.i64_in(4, 120),
             2 => rng.i64_in(121, 1500),
@@ -173,7 +176,7 @@ pub fn generate(rng: &mut Rng, tier: Tier) -> Plan {
         let (a, b) = (w[0].ts, w[1].ts);
         queries.push(a);
         queries.push(a + (b - a) / 2);
-        if b - a >= 2 {
+        if b - a >= 2 && !large {
             queries.push(a + 1 + rng.below((b - a - 1) as u64) as i64);
             queries.push(a + 1 + rng.below((b - a - 1) as u64) as i64);
         }
@@ -185,6 +188,13 @@ pub fn generate(rng: &mut Rng, tier: Tier) -> Plan {
     queries.push(nodes[0].ts - 1);
     queries.push(nodes[n - 1].ts + 1 + rng.below(gl.min(5 * 365 * DAY) as u64) as i64);
     queries.push(nodes[n - 1].ts + 1);
+    // dates that make an interpolation weight an exact small integer
+    queries.push(nodes[0].ts - g0); // w = -1
+    queries.push(nodes[n - 1].ts + gl); // w = 2
+    queries.push(nodes[0].ts + 1);
+    if g0 > 2 {
+        queries.push(nodes[0].ts + 2);
+    }
     rng.shuffle(&mut nodes);
     let ctor = if rng.chance(0.5) {
         Ctor::Df
@@ -199,6 +209,7 @@ pub fn generate(rng: &mut Rng, tier: Tier) -> Plan {
         None
     };
     let depth = match tier {
+        _ if large => 2,
         Tier::Quick => 3,
         Tier::Thorough => {
             if rng.chance(0.25) {
@@ -619,6 +630,10 @@ impl Model {
         }
     }
 
+    fn node_names(&self, i: usize, t: Tags) -> Vec<String> {
+        self.node_r(i, t).names()
+    }
+
     fn all_names(&self, t: Tags) -> Vec<String> {
         let mut s = std::collections::BTreeSet::new();
         for i in 0..self.nodes.len() {
@@ -644,11 +659,13 @@ struct Ctx<'a> {
     ctor: &'static str,
 }
 
+#[allow(clippy::too_many_arguments)]
 fn check_number(
     what: &str,
     got: &Number,
     want: &R,
     names: &[String],
+    allset: &std::collections::HashSet<String>,
     order: u8,
     ctx: &str,
     scale_floor: f64,
@@ -676,7 +693,7 @@ fn check_number(
         return Ok(());
     }
     for nm in &s.vars {
-        if !names.contains(nm) {
+        if !allset.contains(nm) {
             let g = grad_of(got, &[nm.clone()])[0];
             if g != 0.0 {
                 return Err(v(
@@ -765,11 +782,40 @@ fn probe(
             ),
         ));
     }
-    let names = model.all_names(tags);
+    let all_names = model.all_names(tags);
+    let allset: std::collections::HashSet<String> = all_names.iter().cloned().collect();
+    let nn = model.nodes.len();
     let mut h = Fnv::new();
     let first_ts = model.nodes[0].ts;
     for (qi, q) in c.queries.iter().enumerate() {
         let d = ts_to_ndt(*q);
+        // the names whose sensitivities are compared: all of them, or for long curves the
+        // interval's neighbourhood, both ends and a spread of far nodes (a sensitivity booked
+        // to any other variable is still caught by the unknown-variable / value checks)
+        let names_sub: Vec<String>;
+        let names: &Vec<String> = if all_names.len() <= 40 {
+            &all_names
+        } else {
+            let i = model.interval(*q);
+            let mut idx: std::collections::BTreeSet<usize> = std::collections::BTreeSet::new();
+            for k in i.saturating_sub(3)..(i + 5).min(nn) {
+                idx.insert(k);
+            }
+            for k in [0, 1, 2, nn - 3, nn - 2, nn - 1] {
+                idx.insert(k.min(nn - 1));
+            }
+            for j in 0..8 {
+                idx.insert((j * nn / 8 + qi) % nn);
+            }
+            let mut set: std::collections::BTreeSet<String> = std::collections::BTreeSet::new();
+            for k in idx {
+                for nm in model.node_names(k, tags) {
+                    set.insert(nm);
+                }
+            }
+            names_sub = set.into_iter().collect();
+            &names_sub
+        };
         let (want, want_idx) = c
             .memo
             .entry((tags, qi))
@@ -786,7 +832,7 @@ fn probe(
         let got = call(P, "Curve::value", || sut.value(&d))?;
         digest_number(&mut h, &got);
         let what = "value";
-        check_number(what, &got, &want, &names, order, ctx, 0.0)
+        check_number(what, &got, &want, names, &allset, order, ctx, 0.0)
             .map_err(|e| annotate(e, seq, *q, c.ctor))?;
         // values never move across the history
         let s = see(&got);
@@ -840,7 +886,7 @@ fn probe(
                 digest_number(&mut h, &n);
                 if *q < first_ts {
                     let s = see(&n);
-                    let any_grad = grad_of(&n, &names).iter().any(|g| *g != 0.0);
+                    let any_grad = grad_of(&n, names).iter().any(|g| *g != 0.0);
                     if s.real != 0.0 || any_grad {
                         return Err(annotate(
                             v(
@@ -858,7 +904,7 @@ fn probe(
                     obs.count("reach.index_value_before_first_node");
                 } else {
                     let wi = want_idx.as_ref().unwrap();
-                    check_number("index_value", &n, wi, &names, order, ctx, 0.0)
+                    check_number("index_value", &n, wi, names, &allset, order, ctx, 0.0)
                         .map_err(|e| annotate(e, seq, *q, c.ctor))?;
                 }
             }
